@@ -121,6 +121,7 @@ pub struct WorldC {
     pub(crate) expect_ballots: Vec<(usize, u64, String, String)>,
     pub(crate) queue: std::collections::VecDeque<Step>,
     pub(crate) races_done: u32,
+    pub(crate) member_races_done: u32,
 }
 
 pub fn wasm_exec(contract: &str, msg: &Value, funds: Vec<Coin>) -> Value {
@@ -453,6 +454,22 @@ impl WorldC {
             _ => 2,
         };
         let self_admin = self.last_group_obs.as_ref().and_then(|o| o.admin.clone()).map(|a| a == m.addr).unwrap_or(false);
+        // a treasury may spend whatever it holds — including the coins other proposers deposited
+        if let (Some(d), true) = (&m.deposit, rng.chance(1, 8)) {
+            let to = self.pick_user(rng);
+            let held = match &d.denom {
+                cw20::Denom::Native(dn) => self.chain.bank_balance(&m.addr, dn),
+                cw20::Denom::Cw20(_) => self.token_balance(&m.addr),
+            };
+            let amt = *rng.pick(&[held, held, d.amount.u128(), held.saturating_sub(d.amount.u128().saturating_sub(1))]);
+            if amt > 0 {
+                self.meter.hit("proposal_spends_the_deposit_pot");
+                return vec![match &d.denom {
+                    cw20::Denom::Native(dn) => bank_send(&to, amt, dn),
+                    cw20::Denom::Cw20(t) => wasm_exec(t.as_str(), &json!({"transfer":{"recipient": to, "amount": amt.to_string()}}), vec![]),
+                }];
+            }
+        }
         (0..n)
             .map(|_| match if self_admin && rng.chance(1, 2) { 11 } else { rng.below(12) } {
                 0..=3 => bank_send(&self.pick_user(rng), rng.range(1, 1000) as u128, PAY_DENOM),
@@ -806,6 +823,93 @@ impl WorldC {
             self.queue.push_back(s);
         }
         Some(head)
+    }
+
+    /// F1, second shape: a member's standing changes and that very member acts in the same block (Execute of a
+    /// passed proposal under `executor: member`, Vote, Propose) — in either order.
+    fn gen_membership_race(&mut self, rng: &mut Rng) -> Option<Step> {
+        if self.member_races_done >= 3 {
+            return None;
+        }
+        let flex: Vec<MsigState> = self.msigs.iter().filter(|m| m.flex).cloned().collect();
+        if flex.is_empty() {
+            return None;
+        }
+        let m = rng.pick(&flex).clone();
+        let tx = |sender: &str, target: &str, msg: Value| Step::Tx { sender: sender.to_string(), target: target.to_string(), msg, funds: vec![], fault: None, script: vec![] };
+        // who: a user that is a member now, or (for joins) one that is not
+        let members: Vec<String> = self.users.iter().filter(|u| self.cur_members.contains_key(*u)).cloned().collect();
+        let outsiders: Vec<String> = self.users.iter().filter(|u| !self.cur_members.contains_key(*u)).cloned().collect();
+        let leaving = outsiders.is_empty() || (!members.is_empty() && rng.chance(2, 3));
+        let who = if leaving { rng.pick(&members).clone() } else { rng.pick(&outsiders).clone() };
+        if leaving && members.is_empty() {
+            return None;
+        }
+        let change: Step = if self.is_stake {
+            let (tpw, min_bond, _) = self.stake_cfg.unwrap_or((1, 1, cw_utils::Duration::Height(1)));
+            if leaving {
+                let ui = self.idx(&who).unwrap_or(0);
+                let staked = self.last_group_obs.as_ref().and_then(|o| o.staked.get(ui).cloned()).unwrap_or(0);
+                if staked == 0 {
+                    return None;
+                }
+                tx(&who, "group", json!({"unbond":{"tokens": staked.to_string()}}))
+            } else {
+                let amt = tpw.max(min_bond).saturating_mul(3);
+                if self.stake_cw20 {
+                    tx(&who, "token", json!({"send":{"contract": self.group, "amount": amt.to_string(), "msg": Binary::from(br#"{"bond":{}}"#.to_vec()).to_base64()}}))
+                } else {
+                    Step::Tx { sender: who.clone(), target: "group".into(), msg: json!({"bond":{}}), funds: vec![(STAKE_DENOM.to_string(), amt.to_string())], fault: None, script: vec![] }
+                }
+            }
+        } else {
+            let admin = self.last_group_obs.as_ref().and_then(|o| o.admin.clone())?;
+            if self.chain.label_of(&admin).is_some() {
+                return None;
+            }
+            if leaving {
+                if rng.chance(2, 3) {
+                    tx(&admin, "group", json!({"update_members":{"add": [], "remove": [who]}}))
+                } else {
+                    tx(&admin, "group", json!({"update_members":{"add": [{"addr": who, "weight": 0}], "remove": []}}))
+                }
+            } else {
+                tx(&admin, "group", json!({"update_members":{"add": [{"addr": who, "weight": rng.range(1, 5)}], "remove": []}}))
+            }
+        };
+        let passed: Vec<u64> = m.props.values().filter(|p| p.last_status == "Passed").map(|p| p.id).collect();
+        let open: Vec<u64> = m.props.values().filter(|p| p.last_status == "Open" || p.last_status == "Passed").map(|p| p.id).collect();
+        let act = match rng.below(4) {
+            0 | 1 if !passed.is_empty() => tx(&who, &m.label, json!({"execute":{"proposal_id": *rng.pick(&passed)}})),
+            2 if !open.is_empty() => tx(&who, &m.label, json!({"vote":{"proposal_id": *rng.pick(&open), "vote": *rng.pick(&["yes", "no", "yes"])}})),
+            _ => {
+                let payload = self.gen_payload(rng, &m);
+                let mut funds: Vec<(String, String)> = vec![];
+                if let Some(d) = &m.deposit {
+                    if let cw20::Denom::Native(dn) = &d.denom {
+                        funds = vec![(dn.clone(), d.amount.u128().to_string())];
+                    }
+                }
+                Step::Tx {
+                    sender: who.clone(),
+                    target: m.label.clone(),
+                    msg: json!({"propose":{"title": format!("mr{}", self.step_idx), "description":"d", "msgs": payload, "latest": Value::Null}}),
+                    funds,
+                    fault: None,
+                    script: vec![],
+                }
+            }
+        };
+        self.member_races_done += 1;
+        self.meter.hit("member_changed_and_acted_in_one_block");
+        // usually the change comes first (the stale-snapshot direction); sometimes the action does
+        if rng.chance(3, 4) {
+            self.queue.push_back(act);
+            Some(change)
+        } else {
+            self.queue.push_back(change);
+            Some(act)
+        }
     }
 
     fn gen_block(&mut self, rng: &mut Rng) -> Step {
@@ -1192,6 +1296,7 @@ impl World for WorldC {
             expect_ballots: vec![],
             queue: Default::default(),
             races_done: 0,
+            member_races_done: 0,
         };
         if !w.group_ok {
             w.meter.hit("group_instantiate_rejected");
@@ -1343,6 +1448,11 @@ impl World for WorldC {
         }
         if rng.chance(1, 16) {
             if let Some(s) = self.gen_reweight_race(rng) {
+                return s;
+            }
+        }
+        if rng.chance(1, 12) {
+            if let Some(s) = self.gen_membership_race(rng) {
                 return s;
             }
         }
